@@ -42,6 +42,11 @@ T4Lit == {L1("4"), L1("1"),
           <<":", ":", "f", "f", "f", "f", ":", "4", "0", "3", ":", "2", "0", "1">>}
 T6Lit == {L1("4"), L1("a"), <<":", ":", "a">>, <<"a", "%", "e", "t", "h", "0">>, <<":", ":">>, <<"a", ":", "b">>}
 
+(* The root-suffix labels themselves as ordinary alphabet members: names in which *)
+(* in-addr / ip6 / arpa occur in the middle, twice, or in the wrong order.         *)
+TRoots == {L1("4"), L1("a"), <<"i", "n", "-", "a", "d", "d", "r">>, <<"i", "p", "6">>, <<"a", "r", "p", "a">>,
+           <<"A", "R", "P", "A">>, <<"e", "v", "i", "l">>}
+
 T6Small == {L1("0"), L1("a"), L1("F"), L1("g"), L2("a", "b"), L2("1", "0")}
 T6Core == T6Small \cup {L1("7"), L1("f"), L1("A"), L1("x"), L2("a", "a"), L1("-"), L3("a", "b", "c")}
 T6Medium == T6Small \cup {L1("7"), L1("f"), L1("x"), L2("a", "a")}
@@ -54,6 +59,7 @@ Table(side, tab) ==
       [] tab = "medium" -> IF side = 4 THEN T4Medium ELSE T6Medium
       [] tab = "more" -> IF side = 4 THEN T4More ELSE T6More
       [] tab = "lit" -> IF side = 4 THEN T4Lit ELSE T6Lit
+      [] tab = "roots" -> TRoots
 
 ----------------------------------------------------------------------------
 (* Suffix shapes.  Shape 1 of each side is the true suffix. *)
@@ -61,6 +67,8 @@ INADDR == <<"i", "n", "-", "a", "d", "d", "r">>
 ARPA == <<"a", "r", "p", "a">>
 IP6 == <<"i", "p", "6">>
 COM == <<"c", "o", "m">>
+EXAMPLE == <<"E", "x", "a", "m", "p", "l", "e">>       \* an ordinary name in mixed case (DNS 0x20)
+EVIL == <<"e", "v", "i", "l">>
 (* a genuinely non-ASCII label, U+00E4 r p a, and its correct ACE form *)
 AUML_RPA == <<"<00E4>", "r", "p", "a">>
 ACE_AUML_RPA == <<"x", "n", "-", "-", "r", "p", "a", "-", "p", "l", "a">>
@@ -95,7 +103,8 @@ Shapes4 == <<
     <<<<"i", "n", "<000D>", "a", "d", "d", "r">>, ARPA>>,
     <<<<"1", "<000E>">> \o INADDR, ARPA>>,
     <<INADDR \o <<"<000E>">> \o ARPA>>,
-    <<INADDR, <<"a", "r", "p", "<0001>">>>> >>
+    <<INADDR, <<"a", "r", "p", "<0001>">>>>,
+    <<EXAMPLE, MapLabel(Upper, COM)>> >>
 Shapes6 == <<
     <<IP6, ARPA>>,
     <<MapLabel(Upper, IP6), MapLabel(Upper, ARPA)>>,
@@ -118,9 +127,10 @@ Shapes6 == <<
     <<<<"i", "p", "<0016>">>, ARPA>>,
     <<<<"a", "<000E>">> \o IP6, ARPA>>,
     <<IP6 \o <<"<000E>">> \o ARPA>>,
-    <<<<"<0009>", "p", "6">>, ARPA>> >>
+    <<<<"<0009>", "p", "6">>, ARPA>>,
+    <<EXAMPLE, MapLabel(Upper, COM)>> >>
 Shapes(side) == IF side = 4 THEN Shapes4 ELSE Shapes6
-NShapes == 22
+NShapes == 23
 
 (* Leading labels for extraction.  Lead 1 is "none". *)
 X63 == Rep("x", 63)
@@ -145,6 +155,26 @@ Leads == <<
     <<Ace(L1("1"))>> >>
 NLeads == 18
 
+(* Middles: label sequences between the address part and the final suffix shape, *)
+(* so that a complete (or partial) ARPA name is followed by further labels and by *)
+(* a second root suffix: 4.3.2.1.in-addr.arpa.in-addr.arpa,                        *)
+(* 4.3.2.1.in-addr.arpa.evil.example.in-addr.arpa, ....ip6.arpa.in-addr.arpa.      *)
+(* Mid 1 is "none".                                                                *)
+Mids == <<
+    <<>>,
+    <<INADDR, ARPA>>,
+    <<IP6, ARPA>>,
+    <<INADDR, ARPA, EVIL, MapLabel(Lower, EXAMPLE)>>,
+    <<IP6, ARPA, EVIL>>,
+    <<MapLabel(Upper, INADDR), MapLabel(Upper, ARPA)>>,
+    <<INADDR, ARPA, L1("1")>>,
+    <<IP6, ARPA, L1("a")>>,
+    <<INADDR>>,
+    <<ARPA>>,
+    <<IP6>>,
+    <<ARPA, INADDR>> >>
+NMids == 12
+
 (* Long nibble runs: label i of a run is the nibble (7i mod 16) so that a      *)
 (* shifted or swapped position changes the value; position bp (if any) holds   *)
 (* the label bl instead. *)
@@ -154,8 +184,9 @@ Run(n, bp, bl) == Force([i \in 1..n |-> IF i = bp THEN bl ELSE RunLabel(i)], n)
 ----------------------------------------------------------------------------
 Cfg(side, shape, lead, dots, tab, max, bn, bp, bl) ==
     [side |-> side, shape |-> shape, lead |-> lead, dots |-> dots, tab |-> tab, max |-> max,
-     bn |-> bn, bp |-> bp, bl |-> bl, ace |-> 0]
+     bn |-> bn, bp |-> bp, bl |-> bl, ace |-> 0, mid |-> 1]
 WithAce(c, j) == [c EXCEPT !.ace = j]
+WithMid(c, m) == [c EXCEPT !.mid = m]
 Plain(side, shape, lead, dots, tab, max) == Cfg(side, shape, lead, dots, tab, max, 0, 0, <<>>)
 
 (* Bounds per tier: the wide table up to WideMax labels, the reduced one up to *)
@@ -179,6 +210,11 @@ Configs(side) ==
     \* leading labels (extraction)
     \cup {Plain(side, 1, ld, 0, VarTab, VarMax) : ld \in LeadSet}
     \cup {Plain(side, sh, ld, d, "small", 2) : sh \in {2, 4}, ld \in LeadSet \cap {2, 6, 10, 11, 14}, d \in 0..1}
+    \* the root-suffix labels as ordinary labels: every sequence over the roots table ...
+    \cup {Plain(side, sh, 1, 0, "roots", IF Tier = "mini" THEN 2 ELSE 4) : sh \in {1, 16}}
+    \* ... and ARPA names (partial: enumerated bodies) followed by a middle and a second suffix
+    \cup {WithMid(Plain(side, sh, ld, 0, "small", VarMax), m) :
+             sh \in {1, 15}, ld \in {1} \cup (LeadSet \cap {2}), m \in 2..NMids}
     \* IPv6-literal-shaped bodies (mapped, zoned, fully expanded) before the suffix
     \cup {Plain(side, sh, 1, d, "lit", IF side = 4 THEN 4 ELSE 2) : sh \in {1, 2}, d \in 0..1}
     \* ACE aliases: each of the last labels (suffix labels and the body labels next to them)
@@ -194,6 +230,8 @@ Configs(side) ==
             \* ... and runs under the other shapes, dots and leads
             \cup {Cfg(6, sh, 1, d, "small", 1, n, 0, <<>>) : sh \in {1, 2, 3, 4, 9, 15}, d \in 0..2, n \in 30..33}
             \cup {Cfg(6, 1, ld, 0, "small", 1, n, 0, <<>>) : ld \in LeadSet, n \in 30..33}
+            \* full 32-nibble (and 31/33) names followed by a middle and a second suffix
+            \cup {WithMid(Cfg(6, sh, 1, d, "small", 1, n, 0, <<>>), m) : sh \in {1, 15}, d \in 0..1, n \in 31..32, m \in 2..NMids}
             \cup UNION {{WithAce(Cfg(6, 1, 1, d, "small", 1, n, 0, <<>>), j) :
                            j \in {1, 2, 3, 4, 18, n + 1, n + 2, n + 3}, d \in 0..1} : n \in 31..32}
           ELSE
@@ -201,7 +239,9 @@ Configs(side) ==
             {Cfg(4, 1, 1, 0, DeepTab, 3, 3, 0, <<>>)}
             \* ... and full four-octet names before every shape, with and without a dot
             \cup {Cfg(4, sh, 1, d, "small", 1, 3, 0, <<>>) : sh \in 2..NShapes, d \in 0..1}
-            \cup {WithAce(Cfg(4, 1, 1, d, "small", 1, 3, 0, <<>>), j) : j \in 1..6, d \in 0..1})
+            \cup {WithAce(Cfg(4, 1, 1, d, "small", 1, 3, 0, <<>>), j) : j \in 1..6, d \in 0..1}
+            \* full four-octet names followed by a middle and a second suffix
+            \cup {WithMid(Cfg(4, sh, 1, d, "small", 1, 3, 0, <<>>), m) : sh \in {1, 15}, d \in 0..1, m \in 2..NMids})
 
 (* For side 4 the "run" is a fixed tail of bn octet labels 1.2.3 ... *)
 Base(c) == IF c.bn = 0 THEN <<>>
@@ -227,7 +267,7 @@ Spec == Init /\ [][Next]_nvars
 
 RECURSIVE AddDots(_, _)
 AddDots(n, d) == IF d = 0 THEN n ELSE AddDots(Dotted(n), d - 1)
-Name == LET core == Leads[cf.lead] \o AceAt(body \o Base(cf) \o Shapes(cf.side)[cf.shape], cf.ace)
+Name == LET core == Leads[cf.lead] \o AceAt(body \o Base(cf) \o Mids[cf.mid] \o Shapes(cf.side)[cf.shape], cf.ace)
         IN AddDots(IF Len(core) = 0 THEN << <<>> >> ELSE core, cf.dots)
 
 ----------------------------------------------------------------------------
